@@ -1148,10 +1148,10 @@ func main() {
 
 	// exactly at the threshold: 999, 1000 and 1001 isolated ranges (1000 is still inside the
 	// property's quantifier: the entries must be the given ranges)
-	for i := 0; i < c.Scale(9, 30); i++ {
+	for i := 0; i < c.Scale(12, 36); i++ {
 		count := 999 + i%3
 		n := 4096 - w.intn(90)
-		phys := i%2 == 1
+		phys := (i/3)%2 == 1
 		base := baseOf(phys, n)
 		good := w.goodImage(n)
 		var rs pkgbytes.Ranges
@@ -1162,7 +1162,9 @@ func main() {
 			}
 			rs = append(rs, pkgbytes.Range{Offset: base + uint64(2*k), Length: uint64(l)})
 		}
-		if i >= 3 { // duplicates do not change the number of merged ranges but the number of given ones
+		if i >= 6 && count != 1000 { // duplicates do not change the number of merged ranges but the number of given ones
+			// (never for 1000 given ranges: exactly 1000 merged ranges is the boundary of the coarse pass
+			// and of the property's quantifier; both mappers get such a case)
 			rs[w.intn(len(rs))] = rs[w.intn(len(rs))]
 		}
 		c.Rng.Shuffle(len(rs), func(i, j int) { rs[i], rs[j] = rs[j], rs[i] })
